@@ -198,6 +198,23 @@ func runC10(s *Sim) {
 	for _, tg := range targets {
 		concurrent := t.Bool("concurrent-close", 1, 4)
 		op1 := mkClose(tg)
+		if nb := Pick(t, "inbound-burst-racing-close", 0, 0, 0, 12, 40); nb > 0 {
+			// the broker pushes a burst of messages that the reader goroutines handle while Close
+			// runs (they are handed to the link right before Close is called, no quiescence in between)
+			kind := Pick(t, "inbound-burst-kind", "call", "reply", "call")
+			for _, l := range y.aliveLinks() {
+				for k := 0; k < nb; k++ {
+					n++
+					if kind == "reply" {
+						s.Broker.EmitCall(l, fmt.Sprintf("burst-%d", n), fmt.Sprintf("no-such-call-%d", n), "node-9", "burst", []byte("x"))
+					} else {
+						s.Broker.EmitCall(l, fmt.Sprintf("burst-%d", n), "", "node-9", "burst", []byte("x"))
+					}
+				}
+				l.DeliverAll()
+			}
+			s.Stat("env.inbound-burst-racing-close")
+		}
 		s.Start(5, op1)
 		var op2 *Op
 		if concurrent {
